@@ -591,6 +591,8 @@ class ServerTls(Server):
             if remoter.aborted:  # far side went away while being wrapped
                 continue  # nothing to serve
 
+            if ca in self.cxes and self.cxes[ca] is not remoter:
+                self.cxes[ca].close()  # replaced while still handshaking
             self.cxes[ca] = remoter
 
 
